@@ -122,4 +122,31 @@ def relationRefAsString (nilRef : Bool) (k : RefKind) : Except Panic String :=
     | .wildcard => .ok "type:*"
     | .plain => .error .relationReference
 
+/-! ### finding F26: the shape of a type restriction (openfga/language graph builder, `parseThis`) -/
+
+/-- the `relation_or_wildcard` oneof of a RelationReference as it arrives on the wire -/
+inductive RefShape where
+  | plain                       -- oneof unset: `[user]`
+  | relation (name : String)    -- `[group#member]`; the name may be empty on the wire
+  | wildcard (payload : Bool)   -- `[user:*]`; the Wildcard message may be missing on the wire
+  deriving DecidableEq, Repr
+
+/-- `parseThis`: which node the three `if`s select (`none`: `curNode` stays nil and `upsertEdge(nil, …)` dereferences it) -/
+def parseThisNode : RefShape → Option String
+  | .plain => some "type"
+  | .wildcard true => some "type:*"
+  | .wildcard false => none
+  | .relation name => if name ≠ "" then some "type#relation" else none
+
+def parseThis (s : RefShape) : Except Panic Unit :=
+  match parseThisNode s with
+  | some _ => .ok ()
+  | none => .error (.index "nil *AuthorizationModelNode in upsertEdge")
+
+/-- `typesystem.checkRelationReferenceShape` (the fix of F26): `true` = accepted -/
+def shapeGuard : RefShape → Bool
+  | .plain => true
+  | .relation name => name ≠ ""
+  | .wildcard payload => payload
+
 end OpenFGAVerif.Model.Panics
